@@ -29,6 +29,9 @@ func verifyFunction(prog *ssa.Program, cs *Contracts, fn *ssa.Function, fc *Func
 			panic(r)
 		}
 	}()
+	if fc.Opts["wf"] == "allocated" {
+		g.wfAllocatedOnly = true
+	}
 	if fc.Opts["theory"] == "strings" {
 		g.strTheory = true
 	}
